@@ -330,7 +330,9 @@ def run_case(case, acc):
                 if move == 'relin':
                     _judge_total(probs, of_names, wrt_names, of_shapes, wrt_shapes, hnr, fmon, acc, bad, step,
                                  linearize=False, memo=memo)
-                _judge_totals(probs, of_names, wrt_names, fmon, acc, bad, step)
+                if cached and k % 2 == 0:
+                    # (every column is a linear solve: only in the models built for the solution caches)
+                    _judge_totals(probs, of_names, wrt_names, fmon, acc, bad, step)
                 # ---- group operators (rev-mode problem has both transfer directions) -------------------
                 p.model.run_linearize()
                 if scaled and k == 0:
